@@ -111,15 +111,22 @@ class RefFSM:
         for _ in range(limit):
             self.state = new
             nxt = None
-            for _i in range(self.enter_names.get(self.state, 0)):
+            n_enter = self.enter_names.get(self.state, 0)
+            if n_enter:
+                # the first entry callback issues the chained requests, a second one (method after
+                # instance function) runs afterwards and still sees this event's data
                 self.log.append(('enter', self.state, data.get('k')))
-            requests = list(self.chain.get(self.state, [])) * (1 if self.enter_names.get(self.state, 0) else 0)
-            for (cet, cdata) in requests:
-                cn = self._accept(cet, cdata, env)
-                if cn is not None:
-                    if nxt is not None:
-                        raise ChainError('two events')
-                    nxt = (cet, cdata, cn)
+                requests = list(self.chain.get(self.state, []))
+                for (cet, cdata) in requests:
+                    cn = self._accept(cet, cdata, env)
+                    if cn is not None:
+                        if nxt is not None:
+                            raise ChainError('two events')
+                        nxt = (cet, cdata, cn)
+                if requests:
+                    self.log.append(('enter-after', self.state, data.get('k')))
+                for _i in range(n_enter - 1):
+                    self.log.append(('enter', self.state, data.get('k')))
             if nxt is None and self.state in self.timers:
                 dur, tev = self.timers[self.state]
                 if dur != INF_TIME:
@@ -167,14 +174,19 @@ def build_real(env, name, states, events, timers, cond_m, cond_i, enter_m, enter
             if with_chain:
                 for cet, cdata in chain.get(st, []):
                     holder['fsm'].event(cet, **cdata)
+                if chain.get(st):
+                    # still the data of the event that caused THIS action (a nested event has its own context)
+                    sink.append((kind + '-after', st, edzed.fsm_event_data.get().get('k')))
         return action
     holder = {}
     for ev in cond_m:
         ns['cond_' + ev] = mk_cond(ev, 0)
     chain_done = set()
     for st in enter_m:
-        ns['enter_' + st] = mk_action('enter', st, True)
-        chain_done.add(st)
+        # when an instance callback exists too it runs first and does the chaining
+        ns['enter_' + st] = mk_action('enter', st, st not in enter_i)
+        if st not in enter_i:
+            chain_done.add(st)
     for st in exit_m:
         ns['exit_' + st] = mk_action('exit', st, False)
     cls = type('Gen' + name, (edzed.FSM,), ns)
@@ -182,7 +194,7 @@ def build_real(env, name, states, events, timers, cond_m, cond_i, enter_m, enter
     for ev in cond_i:
         kw['cond_' + ev] = mk_cond(ev, 1 if ev in cond_m else 0)
     for st in enter_i:
-        kw['enter_' + st] = mk_action('enter', st, st not in chain_done)
+        kw['enter_' + st] = mk_action('enter', st, True)
     for st in exit_i:
         kw['exit_' + st] = mk_action('exit', st, False)
     all_states = list(states) + [s for s in timers if s not in states]
@@ -386,11 +398,13 @@ def scen_seq(env, machine, n, inst):
     circ = sync_circuit()
     sink = []
     em, ei = (m['enter'], set()) if not inst else (set(), m['enter'])
+    if inst == 'both':
+        em, ei = m['enter'], m['enter']
     xm, xi = (m['exit'], set()) if not inst else (set(), m['exit'])
     cm, ci = (m['cond'], set()) if not inst else (set(), m['cond'])
     fsm = build_real(env, 'fsm', m['states'], m['events'], m['timers'], cm, ci, em, ei, xm, xi, m['chain'], cond_fn, sink)
     ref = RefFSM(m['states'], m['events'], m['timers'], {e: 1 for e in m['cond']},
-                 {s: 1 for s in m['enter']}, {s: 1 for s in m['exit']}, m['chain'], cond_fn)
+                 {s: (2 if inst == 'both' else 1) for s in m['enter']}, {s: 1 for s in m['exit']}, m['chain'], cond_fn)
     start_sync(circ)
     try:
         ref.event(Goto(m['states'][0]), {}, env)
@@ -447,7 +461,7 @@ def shards(tier):
                     out.append({'name': f'step spec={c_spec} any={c_any} decoy={decoy} cb={cb}', 'scenario': 'scen_step',
                                 'params': {'c_spec': c_spec, 'c_any': c_any, 'decoy': decoy, 'cbmode': cb}})
     for machine in catalog():
-        for inst in (False, True):
+        for inst in (False, True, 'both'):
             out.append({'name': f'seq {machine} inst_callbacks={inst} n={n}', 'scenario': 'scen_seq',
                         'params': {'machine': machine, 'n': n, 'inst': inst}, 'cost': 50})
     return out
